@@ -511,6 +511,36 @@ fn update_family<T: ColumnType + 'static>(case: &Value) -> Value {
         }
         v
     };
+    // verdict of every record of the original file against the same database (Runner::run per record,
+    // no retry clauses in the generated files that use this), up to the first halt of each file level
+    if case.get("judge_before").and_then(|b| b.as_bool()).unwrap_or(false) {
+        if let Ok(Ok(rs)) = &before {
+            let shared = make_shared(case);
+            set_current(Some(shared.clone()));
+            let mut runner = Runner::new(MockMaker::<T>::new(shared.clone()));
+            configure(case, &mut runner);
+            let mut verdicts = vec![];
+            let mut halted: Vec<bool> = vec![false];
+            for r in rs.iter() {
+                match r {
+                    Record::Injected(Injected::BeginInclude(_)) => { halted.push(false); verdicts.push(json!("marker")); continue; }
+                    Record::Injected(Injected::EndInclude(_)) => { halted.pop(); verdicts.push(json!("marker")); continue; }
+                    _ => {}
+                }
+                if *halted.last().unwrap() { verdicts.push(json!("after-halt")); continue; }
+                if let Record::Halt { .. } = r { *halted.last_mut().unwrap() = true; verdicts.push(json!("halt")); continue; }
+                let res = catch_unwind(AssertUnwindSafe(|| runner.run(r.clone())));
+                verdicts.push(match res {
+                    Ok(Ok(o)) => json!(["ok", output_json(&o)]),
+                    Ok(Err(e)) => test_error_json(&e),
+                    Err(_) => json!(["panic"]),
+                });
+            }
+            drop(runner);
+            set_current(None);
+            out.insert("verdicts_before".into(), Value::Array(verdicts));
+        }
+    }
     let cv: ColumnTypeValidator<T> = if strict { strict_column_validator } else { default_column_validator };
     let do_update = |answers_case: &Value, snapshots: Option<Arc<Mutex<Vec<Value>>>>| -> (Value, Value) {
         let shared = make_shared(answers_case);
